@@ -40,7 +40,7 @@ import (
 var (
 	c07SDK        = []string{"2026-07-28", "2025-11-25", "2025-06-18", "2025-03-26", "2024-11-05"}
 	c07Requested  = []string{"", "2026-07-28", "2025-11-25", "2025-06-18", "2025-03-26", "2024-11-05", "2020-01-01", "2025-07-01", "2099-12-31", "zzz", "1.0", "2026-07-29", c07EmptyOptions}
-	c07Transports = []string{"mem", "mem-legacy", "mem-legacy-logged", "pipe", "pipe-legacy", "pipe-legacy-logged", "sse", "http", "http-json", "http-es", "http-json-es", "http-nosid", "http-nosid-json", "http-stateless", "http-stateless-json", "http-stateless-es"}
+	c07Transports = []string{"mem", "mem-legacy", "mem-legacy-logged", "pipe", "pipe-legacy", "pipe-legacy-logged", "pipe-legacy-clientfirst", "sse", "http", "http-json", "http-es", "http-json-es", "http-nosid", "http-nosid-json", "http-stateless", "http-stateless-json", "http-stateless-es"}
 	c07Priors     = []string{"none", "stateless-first", "stateful-open", "stateless-open", "sse-first", "trimmed-probe", "same-client-sse-first"}
 	c07Discovers  = []string{"ok", "notfound", "invalid-params", "unsupported-data", "unsupported-data-always", "unsupported-nodata", "internal", "unsupported-data-sdkwide"}
 	c07Sets       = [][]string{
@@ -139,6 +139,14 @@ func c07Cell(i int) c07Spec {
 }
 
 func TestVerifC07(t *testing.T) {
+	// the one guarded hook this check uses: at the named point inside Server.Connect other goroutines get to run
+	// first (a millisecond of virtual time), as they may on any real scheduler
+	mcp.VerifSetPointHook(func(name string) {
+		if name == "server-connect:connection-started" {
+			time.Sleep(time.Millisecond)
+		}
+	})
+	defer mcp.VerifSetPointHook(nil)
 	total := c07RealCells() + c07ScriptCells() + c07HTTPCells() + c07SSECells()
 	cfg := vh.Config{
 		Property:   "C07",
@@ -330,7 +338,7 @@ func runC07Real(c *vh.Case, spec c07Spec) {
 	var err error
 	modernCapable := true
 	switch spec.Transport {
-	case "mem", "mem-legacy", "pipe", "pipe-legacy", "mem-legacy-logged", "pipe-legacy-logged":
+	case "mem", "mem-legacy", "pipe", "pipe-legacy", "mem-legacy-logged", "pipe-legacy-logged", "pipe-legacy-clientfirst":
 		var st, ct mcp.Transport
 		if strings.HasPrefix(spec.Transport, "mem") {
 			st, ct = mcp.NewInMemoryTransports()
@@ -348,13 +356,28 @@ func runC07Real(c *vh.Case, spec c07Spec) {
 			// the SDK's own logging wrapper around a transport that cannot serve the sessionless protocol
 			st = &mcp.LoggingTransport{Transport: st, Writer: io.Discard}
 		}
+		var early chan struct{}
+		if strings.HasSuffix(spec.Transport, "-clientfirst") {
+			// the client is there first (a stdio server whose client has already written its first request when the
+			// server starts): the request is read the moment the server's connection starts
+			early = make(chan struct{})
+			go func() {
+				defer close(early)
+				cs, err = client.Connect(ctx, ct, copts)
+			}()
+			synctestWait()
+		}
 		ss, serr := server.Connect(ctx, st, nil)
 		if serr != nil {
 			c.Inconclusive("server connect: %v", serr)
 			return
 		}
 		closers = append(closers, func() { ss.Close() })
-		cs, err = client.Connect(ctx, ct, copts)
+		if early != nil {
+			<-early
+		} else {
+			cs, err = client.Connect(ctx, ct, copts)
+		}
 	case "sse":
 		modernCapable = false
 		cs, err = connectSSE(client, copts)
